@@ -430,6 +430,7 @@ func TestRegexType(t *testing.T) {
 		if rapid.IntRange(0, 7).Draw(t, "curated") == 0 {
 			// patterns whose examples need care: zero-width assertions, classes without printable ASCII
 			cur := rapid.SampledFrom([][]string{
+				{``, "", "abc", " "}, // the empty pattern: the token is //
 				{`\Bfoo`, "afoo", "foo", "xfoox", " foo"}, {`[a-z]+\B`, "ua", "u", "ab c", "a"}, {`\b-\b`, "a-a", "-", " - ", "a-"},
 				{`foo\B`, "fooa", "foo", "foo ", "xfoob"}, {`[^\x00-\x7f]`, "\u00e9", "e", "", "a\u00e9"}, {`[^ -~\s]`, "\u00a1", "a", " ", "\u0001"},
 				{`[\x{80}-\x{10ffff}]`, "\u00e9", "e", "\U0001F600", ""}, {`[^\x00-\x7f\d]+`, "\u00e9\u00e9", "12", "x", "\u00e9"},
